@@ -29,5 +29,9 @@ def run(P, R, L):
     K.own8_file_numbers(P, R, L)
     R.clause("GRD-16", "a compaction is done as a trivial move only when it has a single input file and no overlapping parent-level file")
     K.grd16_trivial_move(P, R, L)
+    R.clause("PAIR-9", "compaction inputs are expanded by their boundary files before the key range that selects the parent-level inputs is computed "
+             "(otherwise the output overlaps a remaining parent-level file: the version builder's assertion kills the compaction thread)")
+    K.pair9_boundary_inputs(P, R, L)
+    K.pair9_levels(P, R, L)
     R.not_decided += ["disjointness / sortedness of a level for a concrete history (runtime assertion in VersionBuilder::maybe_add_file)",
                       "uniqueness of file numbers"]
